@@ -255,6 +255,8 @@ cands = [[a] for a in atoms] + [[a, b] for a in atoms for b in atoms]
 cands += [[['_', a, b], 'x'] for a in atoms for b in atoms]
 cands += [[['_', a, b, c], 'x'] for a in atoms for b in atoms
           for c in ('x', '1')]
+cands += [['_', 'bv1', ['8']], [['_', 'extract', ['1'], '0'], 'x'],
+          ['concat', ['_', 'bv1', ['8']], 'x']]
 smtlib.collect_information([])
 for pl in cands:
     node = R.build(pl)
@@ -486,7 +488,7 @@ sys.exit(1 if r.returncode == 0 else 0)
 
 
 def const_replay(script):
-    return lambda name, model, detail: {'script': script}
+    return lambda name, model, detail: {'script': script, 'search': True}
 
 
 def native_checks(tier):
